@@ -844,6 +844,25 @@ func phaseHistory(t *testing.T, e *env, rng *rand.Rand, out *hx.Out) {
 	for sq := 0; sq < seqs; sq++ {
 		cctx, _ := e.s.Ctx.CacheContext()
 		out.Reset()
+		// scenario class: the validator has been SLASHED before the history starts (one share is worth less than one token), so
+		// that "shares moved" and "tokens moved" differ in every allowance-consuming transfer; such sequences use the
+		// share-denominated methods only (delegate / undelegate would create fractional shares the 1:1 model does not have)
+		slashed := false
+		if sq >= len(corpus) && sq%3 == 2 {
+			if val, err := app.StakingKeeper.GetValidator(cctx, e.s.ValAddr[0]); err == nil {
+				cons, _ := val.GetConsAddr()
+				pct := []int64{1, 10, 33, 50}[rng.Intn(4)]
+				if r := hx.Try(func() error {
+					_, err := app.StakingKeeper.Slash(cctx, cons, cctx.BlockHeight(), val.GetConsensusPower(app.StakingKeeper.PowerReduction(cctx)), sdkmath.LegacyNewDecWithPrec(pct, 2))
+					return err
+				}); r == "ok" {
+					slashed = true
+					out.Count(fmt.Sprintf("hist:sequence-on-slashed-validator:%d%%", pct))
+				} else {
+					out.Count("hist:slash-failed:" + r)
+				}
+			}
+		}
 		for _, a := range accts {
 			out.Emit(fmt.Sprintf("set shares %d %s", a.id, e.sharesOf(cctx, a.addr)), "ok")
 			out.Emit(fmt.Sprintf("set bal %d %s", a.id, app.BankKeeper.GetBalance(cctx, a.addr.Bytes(), fxtypes.DefaultDenom).Amount), "ok")
@@ -905,6 +924,9 @@ func phaseHistory(t *testing.T, e *env, rng *rand.Rand, out *hx.Out) {
 			roll := rng.Intn(100)
 			var entries []string
 			scripted := sq < len(corpus)
+			if slashed && !scripted && roll >= 70 && roll < 79 {
+				roll = 25 + rng.Intn(45) // no delegate / undelegate on a slashed validator: an allowance-consuming or plain share transfer instead
+			}
 			if scripted {
 				// h <kind> <caller> <origin> <addr> <mid> <entries|-> <method> <args…>
 				f := strings.Fields(corpus[sq][k])
@@ -1290,6 +1312,9 @@ func phaseHistory(t *testing.T, e *env, rng *rand.Rand, out *hx.Out) {
 			}
 			out.Emit(fmt.Sprintf("%s %s %d %d %s %s %s %s %s", opw, kind, rt.caller, rt.origin, to.Hex(), mid, entStr(entries), method, argStr), status+" "+obs)
 			out.Count("hist:" + method + ":" + status)
+			if slashed {
+				out.Count("hist:on-slashed-validator:" + method + ":" + status)
+			}
 			out.Count("hist:route:" + rt.name + ":" + kind.String())
 			out.Nontrivial(fmt.Sprintf("h|%s|%s|%s|%s|%v", method, rt.name, kind, status, len(entries) > 0))
 			// monitors
